@@ -1,14 +1,18 @@
 ----------------------------- MODULE TraceAlloc -----------------------------
 (* C->S binding for C16: decides recorded executions of the real sc3 allocators with the L1
-   operators of Alloc.tla.  A trace is [id, part, ev]:
-     part = [total, logins, reserved, io, client]  - the address space and how it is divided; the
-            partition the client must stay in is ClientCfg(part) (a bare ContiguousBlockAllocator
-            (size, pos, addr_offset) is total=size, logins=1, reserved=pos, io=addr_offset);
-     ev   = sequence of [n, x, k, r]:
+   operators of Alloc.tla.  A trace is [id, parts, ev]:
+     parts = sequence of [total, logins, reported, reserved, io, client], one per allocator / Server object taking
+            part: the address space, the client's LOCAL max_logins option, the number of logins the SERVER reported
+            at registration (0 = none) and the client id it assigned; the partition the client must stay in is
+            ClientCfgR(part) (a bare ContiguousBlockAllocator(size, pos, addr_offset) is total=size, logins=1,
+            reported=0, reserved=pos, io=addr_offset, client=0);
+     ev   = sequence of [w, n, x, k, r]: w = which allocator (index into parts) and
             n="alloc": x = requested length, k = "ok" (r = address returned / index of the bus or
                        buffer object), "none" (None returned / "no space" exception, r = -1) or
                        "exc:<Type>" (anything else);
             n="free" : x = address freed (-1 = None), k = "ok" | "exc:<Type>".
+   Several allocators in one trace are different clients of one server: besides staying in its own partition, nobody
+   may be handed an index another one holds (CrossClient).
    The spec never predicts which run the allocator picks: it decides that the one returned was
    legal and that "no space" was justified.  One verdict line per trace.                    *)
 EXTENDS Naturals, Integers, Sequences, FiniteSets, TLC, Json, IOUtils
@@ -19,29 +23,33 @@ Traces == JsonDeserialize(IOEnv.VERIF_TRACES)
 VARIABLES tid, l
 tvars == <<C, live, op, ret, prev, tid, l>>
 
-PartOf(t) == ClientCfg(t.part.total, t.part.logins, t.part.reserved, t.part.io, t.part.client)
+PartOf(p) == ClientCfgR(p.total, p.logins, p.reported, p.reserved, p.io, p.client)
+\* here C is the sequence of partitions and live the sequence of live sets, one per allocator
 TInit == /\ tid \in 1 .. Len(Traces) /\ l = 1
-         /\ C = PartOf(Traces[tid]) /\ live = {} /\ op = Op("init", 0) /\ ret = NONE /\ prev = {}
+         /\ C = [i \in 1 .. Len(Traces[tid].parts) |-> PartOf(Traces[tid].parts[i])]
+         /\ live = [i \in 1 .. Len(Traces[tid].parts) |-> {}] /\ op = Op("init", 0) /\ ret = NONE /\ prev = {}
 
-Why(e, lv) ==
+Why(e, lvs) ==
+    LET lv == lvs[e.w]  c == C[e.w] IN
     IF e.k \notin {"ok", "none"} THEN "raised"
     ELSE IF e.n = "alloc" THEN
         IF (e.k = "none") # (e.r = NONE) THEN "shape"
-        ELSE LET w == AllocWhy(lv, C, e.x, e.r)
+        ELSE LET w == AllocWhy(lv, c, e.x, e.r)
                  lv2 == AfterAlloc(lv, e.x, e.r) IN
              IF w # "ok" THEN w
              ELSE IF ~Disjoint(lv2) THEN "Disjoint"
-             ELSE IF ~InsidePartition(lv2, C) THEN "InsidePartition"
+             ELSE IF ~InsidePartition(lv2, c) THEN "InsidePartition"
+             ELSE IF \E j \in 1 .. Len(lvs) : j # e.w /\ Occ(lv2) \cap Occ(lvs[j]) # {} THEN "CrossClient"
              ELSE "ok"
     ELSE IF e.n = "free" THEN "ok"
     ELSE "unknown-event"
-After(e, lv) == IF e.n = "alloc" THEN AfterAlloc(lv, e.x, e.r) ELSE AfterFree(lv, e.x)
+After(e, lvs) == [lvs EXCEPT ![e.w] = IF e.n = "alloc" THEN AfterAlloc(@, e.x, e.r) ELSE AfterFree(@, e.x)]
 
 Step == /\ l >= 1 /\ l <= Len(Traces[tid].ev)
         /\ LET e == Traces[tid].ev[l]
                why == Why(e, live) IN
            IF why = "ok"
-           THEN /\ live' = After(e, live) /\ prev' = live /\ op' = Op(e.n, e.x) /\ ret' = e.r
+           THEN /\ live' = After(e, live) /\ prev' = live[e.w] /\ op' = Op(e.n, e.x) /\ ret' = e.r
                 /\ l' = l + 1 /\ UNCHANGED <<C, tid>>
            ELSE /\ PrintT(<<"REJ", Traces[tid].id, l, why>>)
                 /\ l' = 0 /\ UNCHANGED <<C, live, op, ret, prev, tid>>
